@@ -141,6 +141,26 @@ def run(ctx):
             idotted = set((e.from_path, e.to_path) for e in g.deps if e.edge_type == _plotting.ImplicitEdge)
             wn, ws, wd = spec_graph(w, entry)
             bad = None
+            # C18-KF1 (nodes keyed by signature): kept paths that share a signature are one node in the code. Such a
+            # pipeline is compared modulo that identification: only a difference that remains is a new violation.
+            raw_nodes, raw_edges = set(inodes), set(isolid | idashed | idotted)
+            sig_of = dict(r["paths"] or {})
+            if entry["kind"] == "keep":
+                sig_of.setdefault(entry["path"], "<root>")
+            classes = {}
+            for p_, k_ in sig_of.items():
+                classes.setdefault(k_, []).append(p_)
+            shared = dict((p_, min(ps)) for ps in classes.values() if len(ps) > 1 for p_ in ps)
+            kf = None
+            if shared:
+                q = lambda x: shared.get(x, x)
+                qe = lambda es: set((q(a), q(b)) for (a, b) in es if q(a) != q(b))
+                if (wn - inodes or isolid != ws or idashed != wd):
+                    kf = "C18-KF1"
+                wn, inodes_q = set(map(q, wn)), set(map(q, inodes))
+                ws, wd = qe(ws), qe(wd)
+                isolid, idashed, idotted = qe(isolid), qe(idashed), qe(idotted)
+                inodes = inodes_q
             if not acyclic(list(isolid | idashed | idotted)):
                 bad = "the graph has a cycle"
             elif not wn <= inodes:
@@ -157,12 +177,16 @@ def run(ctx):
             if bad is None and entry["kind"] == "eval":
                 try:
                     dn, de = parse_dot(open(out).read())
-                    if dn != inodes or set((a, b) for (a, b, _) in de) != (isolid | idashed | idotted):
+                    if dn != raw_nodes or set((a, b) for (a, b, _) in de) != raw_edges:
                         bad = "the exported file does not show the computed graph: nodes %s edges %s" % (sorted(dn), sorted(de))
                 except BaseException as e:
                     bad = "the exported graph file cannot be read: %s" % e
             if bad:
                 res.violations.append({"what": bad, "input": case, "kf": None})
+                continue
+            if kf:
+                res.count("kf1_two_paths_one_signature")
+                res.violations.append({"what": "paths %s share a signature and appear as one node" % sorted(shared), "input": case, "kf": kf})
                 continue
             # same evaluation without export on a fresh store: same result / signatures / stored keys
             with pipeline.Session("memory", tag="c18b") as s2:
